@@ -27,14 +27,14 @@ PROGRAMS = [
     ("examples-on-domain", {"main.oal": '# examples: { a1: "1", a2: "2", a3: "3", a4: "4", a5: "5" }\nlet d = { \'k str };\nres /d on post : <d> -> <>;\n'}),
     ("many-references", {"main.oal": "let @a = { 'x @b, 'y @c, 'z @d };\nlet @b = { 'p num };\nlet @c = [@d];\nlet @d = { 'q @a };\nres / on get -> <@a> :: <status=404, @c>;\n"}),
     ("many-ranges-and-methods", {"main.oal": 'res /r on get, put, patch, delete -> <status=200, media="a/x", {}> :: <status=200, media="b/y", num> :: <status=404, str> :: <status=5XX, {}> :: <>;\n'}),
-    ("rec-in-functions", {"main.oal": "let f x = rec r { 'v x, 'next [r] };\nres / on get -> <{ 'a f num, 'b f str, 'c f { 'k num } }>;\n"}),
+    ("rec-in-functions", {"main.oal": "let f x = rec r { 'v x, 'next [r] };\nlet g y = { 'l f y, 'r f int };\nres / on get -> <{ 'a f num, 'b f str, 'c g bool }>;\nres /ints on get -> f int;\n"}),
     ("many-headers-params-tags", {"main.oal": "let h1 = 'ETag! str;\nlet h2 = 'X-Rate-Limit int;\nlet h3 = 'X-Rate-Reset int;\nlet h4 = 'Retry-After int;\n"
                                       "# tags: [alpha, beta, gamma, delta], summary: \"s\"\nlet op = get, put { 'q1 str, 'q2! int, 'q3 bool, 'q4 num } : <headers={ 'If-Match str, 'If-None-Match str, 'X-A str }, {}> "
                                       "-> <status=200, headers={ h1, h2, h3, h4 }, { 'a! num, 'b! str, 'c! bool, 'd! int, 'e num }> :: <status=404, headers={ h2, h3, h4 }, {}>;\n"
                                       "res /things/{ 'id int }/{ 'sub str }?{ 'p1 str, 'p2 int, 'p3 bool } on op;\nres /other on get -> <{}>;\nres /third on get -> <{}>;\nres /fourth on get -> <{}>;\n"}),
     ("enums-and-facets", {"main.oal": "let color = str `enum: [red, green, blue, black], pattern: \"^[a-z]+$\", minLength: 3, maxLength: 5`;\nlet n = num `minimum: 0, maximum: 9.5, multipleOf: 0.5, example: 2`;\n"
                               "let @pal = { 'c1! color, 'c2! color, 'c3! color, 'n n } `title: \"t\", description: \"d\"`;\nres /pal on get -> <@pal> `description: \"palette\"`;\n"}),
-    ("two-modules", {"main.oal": 'use "m.oal";\nuse "n.oal" as q;\n# examples: { m1: "1", m2: "2", m3: "3" }\nlet @top = { \'t t, \'u q.u };\nres / on get -> <@top>;\n',
+    ("two-modules", {"main.oal": 'use "m.oal";\nuse "n.oal" as q;\n# examples: { m1: "1", m2: "2", m3: "3" }\nlet @top = { \'t t, \'u q.@u };\nres / on get -> <@top>;\n',
                      "m.oal": "let t = rec x { 'kids [x] };\n", "n.oal": '# examples: { n1: "1", n2: "2", n3: "3" }\nlet @u = { \'w num };\n'}),
 ]
 
@@ -105,6 +105,8 @@ def run(tier):
         exits = set(o[0] for o in outs)
         if exits != {0}:
             if exits == {1}:
+                if name in dict(PROGRAMS):
+                    raise common.ToolError("directed determinism program %s is rejected by the compiler: the check would be vacuous" % name)
                 continue          # not an accepted program (corpus): outside the property
             chk.violation("C06|exit-differs", "%s: exit codes differ between runs: %s" % (name, sorted(exits)), {"files": files})
             continue
@@ -133,6 +135,8 @@ def run(tier):
             seqc.append(case)
             seqc.append({"main": B + "main.oal", "files": {B + "main.oal": "let z%d = { 'w%d num };\nres /%d on get -> <z%d>;\n" % (k, k, k, k)}, "want": {"yaml": True}})
         obs = run_oalv("compile", seqc)
+        if any(o.get("yaml") is None for o in obs[0::2]):
+            raise common.ToolError("directed determinism program %s is not compiled to a document: %s" % (name, json.dumps(obs[0])[:300]))
         ys = set(o.get("yaml") for o in obs[0::2])
         if len(ys) > 1:
             chk.violation("C06|bytes-differ|in-process", "%s: repeated compilation in one process gives %d different YAML texts" % (name, len(ys)), {"files": files})
